@@ -84,7 +84,8 @@ def run(ctx):
     from joserfc.drafts.jwe_ecdh_1pu import register_ecdh_1pu
     register_ecdh_1pu()
     rng = ctx.rng
-    pop = KC.population(ctx) + KC.odd_shapes()
+    resp = KC.respelled_private_jwks(rng)
+    pop = KC.population(ctx) + (resp if ctx.tier != "quick" else rng.sample(resp, min(len(resp), 30))) + KC.odd_shapes()
     all_jws = J.ALL_ALGS
     jwe_all = list(jwe.JWERegistry.algorithms["alg"]) + list(jwe.JWERegistry.algorithms["enc"]) + ["DEF"]
     lines, impls = [], []
